@@ -75,7 +75,8 @@ def _compile_one(cc, flags, src, extra_key=""):
     key = _sha(pre.stdout + " ".join(cc + fl).encode() + extra_key.encode())
     obj = os.path.join(CACHE, key + ".o")
     if not os.path.exists(obj):
-        tmp = obj + ".%d.tmp" % os.getpid()
+        import threading, uuid
+        tmp = obj + ".%d.%d.%s.tmp" % (os.getpid(), threading.get_ident(), uuid.uuid4().hex[:8])    # unique per process, thread and call
         r = subprocess.run(cc + fl + ["-c", src, "-o", tmp], capture_output=True)
         if r.returncode != 0:
             raise RuntimeError("compile failed: %s\n%s" % (src, r.stderr.decode()[-6000:]))
